@@ -77,6 +77,8 @@ func addProp(p *propCfg) {
 
 func init() {
 	addProp(&propCfg{id: "C01", quick: tierCfg{3000, 60, 25}, thorough: tierCfg{400000, 900, 200}})
+	addProp(&propCfg{id: "C04", quick: tierCfg{4000, 60, 25}, thorough: tierCfg{400000, 600, 200}})
+	addProp(&propCfg{id: "C10", quick: tierCfg{4000, 60, 25}, thorough: tierCfg{400000, 900, 200}})
 }
 
 // ---------------------------------------------------------------------------
